@@ -171,6 +171,7 @@ func (propC02) Gen(seed uint64, tier string, idx int) *Plan {
 		}
 		p.Sub += fmt.Sprintf("/hist%d", k)
 	}
+	stmtYields(r, p, 300)
 	p.Deadline = 60 * time.Second
 	p.Settle = 200 * time.Millisecond
 	return p
